@@ -326,7 +326,7 @@ impl rand_core::RngCore for TranscriptRng {
         let dest_len = encode_usize_as_u32(dest.len());
         self.strobe.meta_ad(&dest_len, false);
         self.strobe.prf(dest, false);
-        crate::observe::emit(self.id, || crate::observe::Op::RngFill { out: dest.to_vec() });
+        crate::observe::after_rng_fill(self.id, dest);
     }
 
     fn try_fill_bytes(&mut self, dest: &mut [u8]) -> Result<(), rand_core::Error> {
